@@ -353,6 +353,164 @@ theorem C09_never_silent_enum {F} (ops : FloatOps F) (lookup : Int → RefLookup
     (nullable = true ∧ input.all isSpace = true ∧ r.val = .unset) :=
   never_silent_enum_of_cfg ops Generated.lexCfg (by decide) (by decide) lookup k hk nullable input r h hne
 
+/-! ## REAL / NUMBER
+
+`_partial`: these theorems cover the half of "never silent" that the unrepaired tree violated — a token is never silently
+turned into an *unset* attribute — for all inputs.  Not proved: that a value accepted without error equals the token's
+denotation (it needs the lexical equivalence between libstdc++'s float scan + `strtod` and `Grammar.denoteReal`; it is
+covered by the correspondence with the exhaustive / random token streams and by the FloatLaws validation only). -/
+
+/-- NUMBER, never silently unset (any configuration in which `ReadNumber` reports a failed extraction): for *any* input
+    bytes, if `STEPattribute::STEPread` flags no error and leaves the attribute unset, then the attribute is OPTIONAL and
+    the input is `$`/a missing value, or the input is blank, or the text converts to the in-band null `FLT_MIN`. -/
+theorem never_silently_unset_number_of_cfg {F} (ops : FloatOps F) (cfg : LexCfg) (hcfg : cfg.numberReportsFail = true)
+    (lookup : Int → RefLookup) (nullable : Bool) (input : List Byte) (r : ReadResult F)
+    (h : attrRead ops cfg lookup .number nullable (IStream.ofBytes input) = .ok r) (hne : NoErr r.sev)
+    (hun : r.val = .unset) : UnsetOrigin ops nullable input := by
+  obtain ⟨sp1, body, h1, h2, h3, h4⟩ := dropSpaces_split [] input
+  rcases h4 with rfl | ⟨c, t, rfl, hc⟩
+  · right; left; simp at h1; subst h1; exact h2
+  · subst h1
+    by_cases h36 : c = 36
+    · subst h36
+      rw [attrRead_dollar ops cfg lookup .number nullable sp1 t h2] at h
+      simp only [Outcome.ok.injEq] at h
+      subst h
+      cases nullable with
+      | false => simp [NoErr] at hne
+      | true => left; exact ⟨rfl, sp1, 36, t, rfl, h2, Or.inl rfl⟩
+    · by_cases hdl : c = 44 ∨ c = 41
+      · rw [attrRead_missing ops cfg lookup .number nullable sp1 t c h2 hdl] at h
+        simp only [Outcome.ok.injEq] at h
+        subst h
+        cases nullable with
+        | false => simp [NoErr] at hne
+        | true => left; exact ⟨rfl, sp1, c, t, rfl, h2, Or.inr hdl⟩
+      · have hcond : (c == 36 || c == 44 || c == 41) = false := by
+          simp at hdl ⊢; exact ⟨⟨h36, hdl.1⟩, hdl.2⟩
+        have hpre : (IStream.ofBytes (sp1 ++ c :: t)).ws = { left := sp1.reverse, right := c :: t } := by
+          simpa [IStream.ofBytes] using ws_good [] sp1 c t true h2 hc
+        simp only [attrRead, hpre, peekC_good, hcond, readNumber, ws_good0 _ _ _ _ hc, extractFloatText_good _ _ _ hc] at h
+        simp only [Bool.false_eq_true, if_false, Outcome.ok.injEq] at h
+        cases hconv : ops.conv (scanFloat sp1.reverse (c :: t)).1 with
+        | ok v =>
+          right; right
+          simp only [hconv] at h
+          subst h
+          simp only [realValue] at hun
+          by_cases hnull : ops.isRealNull v = true
+          · exact ⟨_, v, hconv, hnull⟩
+          · simp [hnull] at hun
+        | invalid =>
+          exfalso
+          simp only [hconv, IStream.setFail, IStream.failed, Bool.or_true, Bool.true_or, hcfg, Bool.not_false, Bool.and_self] at h
+          subst h
+          rcases cri_mono _ _ with hm | hm
+          · rw [hm] at hne; exact warnIf_true_err Sev.null hne
+          · exact hm hne
+        | overflow =>
+          exfalso
+          simp only [hconv, IStream.setFail, IStream.failed, Bool.or_true, Bool.true_or, hcfg, Bool.not_false, Bool.and_self] at h
+          subst h
+          rcases cri_mono _ _ with hm | hm
+          · rw [hm] at hne; exact warnIf_true_err Sev.null hne
+          · exact hm hne
+
+
+theorem C09_never_silent_number_partial {F} (ops : FloatOps F) (lookup : Int → RefLookup) (nullable : Bool)
+    (input : List Byte) (r : ReadResult F)
+    (h : attrRead ops Generated.lexCfg lookup .number nullable (IStream.ofBytes input) = .ok r) (hne : NoErr r.sev)
+    (hun : r.val = .unset) : UnsetOrigin ops nullable input :=
+  never_silently_unset_number_of_cfg ops Generated.lexCfg (by decide) lookup nullable input r h hne hun
+
+/-- REAL, never silently unset (any configuration in which `ReadReal` reports a failed conversion of a non-empty text):
+    for any input bytes *without a NUL byte* (`strchr(",)", 0)` makes `CheckRemainingInput` treat NUL as a delimiter), if
+    `STEPattribute::STEPread` flags no error and leaves the attribute unset, then the attribute is OPTIONAL and the input
+    is `$`/a missing value, or the input is blank, or the text converts to the in-band null `FLT_MIN`. -/
+theorem never_silently_unset_real_of_cfg {F} (ops : FloatOps F) (cfg : LexCfg) (hcfg : cfg.realReportsFail = true)
+    (lookup : Int → RefLookup) (nullable : Bool) (input : List Byte) (hnul : ∀ b ∈ input, b ≠ 0) (r : ReadResult F)
+    (h : attrRead ops cfg lookup .real nullable (IStream.ofBytes input) = .ok r) (hne : NoErr r.sev)
+    (hun : r.val = .unset) : UnsetOrigin ops nullable input := by
+  obtain ⟨sp1, body, h1, h2, h3, h4⟩ := dropSpaces_split [] input
+  rcases h4 with rfl | ⟨c, t, rfl, hc⟩
+  · right; left; simp at h1; subst h1; exact h2
+  · subst h1
+    by_cases h36 : c = 36
+    · subst h36
+      rw [attrRead_dollar ops cfg lookup .real nullable sp1 t h2] at h
+      simp only [Outcome.ok.injEq] at h
+      subst h
+      cases nullable with
+      | false => simp [NoErr] at hne
+      | true => left; exact ⟨rfl, sp1, 36, t, rfl, h2, Or.inl rfl⟩
+    · by_cases hdl : c = 44 ∨ c = 41
+      · rw [attrRead_missing ops cfg lookup .real nullable sp1 t c h2 hdl] at h
+        simp only [Outcome.ok.injEq] at h
+        subst h
+        cases nullable with
+        | false => simp [NoErr] at hne
+        | true => left; exact ⟨rfl, sp1, c, t, rfl, h2, Or.inr hdl⟩
+      · have hcond : (c == 36 || c == 44 || c == 41) = false := by
+          simp at hdl ⊢; exact ⟨⟨h36, hdl.1⟩, hdl.2⟩
+        have hc0 : c ≠ 0 := hnul c (by simp)
+        have hcd : isDelim attrDelims c = false := by
+          simp at hdl
+          simp [isDelim, attrDelims, hc0, hdl.1, hdl.2]
+        have hpre : (IStream.ofBytes (sp1 ++ c :: t)).ws = { left := sp1.reverse, right := c :: t } := by
+          simpa [IStream.ofBytes] using ws_good [] sp1 c t true h2 hc
+        simp only [attrRead, hpre, peekC_good, hcond, readReal, ws_good0 _ _ _ _ hc, IStream.good] at h
+        simp only [Bool.false_eq_true, if_false, Bool.not_false, Bool.and_self, Bool.not_true] at h
+        have happ := realCollect_append (c :: t)
+        generalize hrc : realCollect (c :: t) = rc at h happ
+        obtain ⟨buf, rest, e⟩ := rc
+        simp only at h happ
+        by_cases hov : buf.length ≥ cfg.realBuf
+        · simp [hov] at h
+        · simp only [hov, if_false] at h
+          cases hconv : ops.conv (scanFloat [] buf).1 with
+          | ok v =>
+            right; right
+            simp only [hconv, Outcome.ok.injEq] at h
+            subst h
+            simp only [realValue] at hun
+            by_cases hnull : ops.isRealNull v = true
+            · exact ⟨_, v, hconv, hnull⟩
+            · simp [hnull] at hun
+          | invalid =>
+            exfalso
+            simp only [hconv, Outcome.ok.injEq, hcfg, Bool.true_and] at h
+            subst h
+            simp only at hne
+            cases buf with
+            | cons b bs =>
+              rcases cri_mono _ _ with hm | hm
+              · rw [hm] at hne; exact warnIf_true_err Sev.null hne
+              · exact hm hne
+            | nil =>
+              simp only [List.nil_append] at happ
+              subst happ
+              exact cri_garbage _ c t false true _ hc hcd hne
+          | overflow =>
+            exfalso
+            simp only [hconv, Outcome.ok.injEq, hcfg, Bool.true_and] at h
+            subst h
+            simp only at hne
+            cases buf with
+            | cons b bs =>
+              rcases cri_mono _ _ with hm | hm
+              · rw [hm] at hne; exact warnIf_true_err Sev.null hne
+              · exact hm hne
+            | nil =>
+              simp only [List.nil_append] at happ
+              subst happ
+              exact cri_garbage _ c t false true _ hc hcd hne
+
+theorem C09_never_silent_real_partial {F} (ops : FloatOps F) (lookup : Int → RefLookup) (nullable : Bool)
+    (input : List Byte) (hnul : ∀ b ∈ input, b ≠ 0) (r : ReadResult F)
+    (h : attrRead ops Generated.lexCfg lookup .real nullable (IStream.ofBytes input) = .ok r) (hne : NoErr r.sev)
+    (hun : r.val = .unset) : UnsetOrigin ops nullable input :=
+  never_silently_unset_real_of_cfg ops Generated.lexCfg (by decide) lookup nullable input hnul r h hne hun
+
 /-! ## witnesses: what the unrepaired scanners did, and the in-band null (any configuration)
 
 Each `…_witness_unrepaired` theorem evaluates the model under the configuration of the tree *before* the C09 repairs on the
